@@ -26,7 +26,7 @@
    completeness theorem of C02 over arbitrary InvD-states); it is checked on the
    implementation for every prefix. *)
 From Coq Require Import NArith List Bool.
-From AQ Require Import Chain.Store Chain.ChainSpec Chain.ChainProofs Chain.ChainWitness Chain.Crash Chain.CrashProofs Chain.ChainReopen Chain.CommitOrder Chain.CommitOrderProofs.
+From AQ Require Import Chain.Store Chain.ChainSpec Chain.ChainProofs Chain.ChainWitness Chain.Crash Chain.CrashProofs Chain.ChainReopen Chain.CommitOrder Chain.CommitOrderProofs Chain.FailWrite.
 Import ListNotations.
 Local Open Scope N_scope.
 
@@ -91,6 +91,22 @@ Theorem C04_block_data_complete_every_prefix_with_reopen : forall (U : N -> sblo
   forall k, block_data_complete (crash_disk d0 (log_of (run ops (pre_open g))) k).
 Proof. exact every_prefix_with_reopen. Qed.
 Print Assumptions C04_block_data_complete_every_prefix_with_reopen.
+
+(* a failing write: if the n-th write of any history of imports and restarts fails and the
+   process dies there, the disk left behind (= the first n-1 writes) has complete block data
+   and its LastBlock pointer is the last one written before.  A process that swallows the error
+   and carries on is not modelled (implementation-side check only). *)
+Theorem C04_failed_write_disk : forall (U : N -> sblock) (g : header),
+  U (h_hash g) = (g, []) -> h_number g = 0 -> h_hash g <> 0 ->
+  forall ops, imports_and_reopens ops ->
+  (forall b, In b (blocks_of ops) -> wf_block U b /\ h_hash (b_hdr b) <> 0) ->
+  forall n,
+  let l := log_of (run ops (pre_open g)) in
+  block_data_complete (fail_disk (genesis_disk g) l n) /\
+  get (fail_disk (genesis_disk g) l n) KHeadBlock
+    = val_of (last_write KHeadBlock (firstn (pred n) l) None) (genesis_disk g) KHeadBlock.
+Proof. exact failed_write_disk. Qed.
+Print Assumptions C04_failed_write_disk.
 
 (* closure of the trie store: the commit method of trie.Database emits its puts in post-order (children
    before parents); whatever prefix [p] of that sequence reached the disk - batch
